@@ -68,6 +68,12 @@ fn main() {
         "C05" => monitors::c05::run(&ctx, &mut rep),
         "C06" => monitors::c06::run(&ctx, &mut rep),
         "C07" => monitors::c07::run(&ctx, &mut rep),
+        "C09" => monitors::c09::run(&ctx, &mut rep),
+        "C10" => monitors::c10::run(&ctx, &mut rep),
+        "C11" => monitors::c11::run(&ctx, &mut rep),
+        "C12" => monitors::c12::run(&ctx, &mut rep),
+        "C19" => monitors::c19::run(&ctx, &mut rep),
+        "C20" => monitors::c20::run(&ctx, &mut rep),
         "C13" => monitors::c13::run(&ctx, &mut rep),
         "C18" => monitors::c18::run(&ctx, &mut rep),
         "C08" => monitors::c08::run(&ctx, &mut rep),
